@@ -142,6 +142,13 @@ Theorem C26_cbor_canonical :
 Proof. exact canonical_created. Qed.
 Print Assumptions C26_cbor_canonical.
 
+(** The other side of the 10 KiB precondition of [C26_roundtrip]: strictly above
+    the limit UnmarshalRecord refuses (at exactly 10240 bytes the round trip holds). *)
+Theorem C26_oversize_rejected : forall bs,
+  max_record_size < blen bs -> unmarshal_record bs = Err ERecordSize.
+Proof. exact oversize_rejected. Qed.
+Print Assumptions C26_oversize_rejected.
+
 (** The DAG-CBOR subset and the envelope on their own (any entry order, any
     well-formed envelope). *)
 Theorem C26_cbor_roundtrip : forall l,
